@@ -10,6 +10,7 @@ PATTERNS = [
     r"celeritas::detail::LogicStack::",
     r"celeritas::detail::(MscStepFromGeo|MscStepToGeo)::operator\(\)",
     r"celeritas::detail::SurfaceTranslator::operator\(\)",
+    r"celeritas::detail::SurfaceTransformer::operator\(\)$",
 ]
 
 
